@@ -1,8 +1,6 @@
 """C07 - a returned shortest path is a real, optimal, geometrically continuous route.
 Oracle: Floyd-Warshall distance (vt/oracle.py) + a hop-by-hop matcher of the returned coordinate list against the
 geometries of the edges that may carry each hop.  Case format, generator and network builder: vt/props/c06.py."""
-from hypothesis import strategies as st
-
 from vt.core import SubCheck, Violation
 from vt.props.c06 import (INF, agree, build_network, edge_points, enum_small, expand_small, graph_cases, handle,
                           is_exact, model, _validate)
@@ -52,7 +50,7 @@ def check_path(case, net, s, t, D, exact):
         raise Violation("path-unknown-node", "%s: path %r" % (name, path))
     idx = [ids.index(p) for p in path]
     if idx[0] != s:
-        if D[(s, idx[0])] == 0:
+        if D[(s, idx[0])] == 0 and idx[-1] == t:          # a suffix of a route, cut where the distance becomes 0
             raise Violation("walkback-stops-at-zero-distance", "%s: path %r starts at %s (distance 0 from the source) "
                             "instead of the source" % (name, path, path[0]))
         raise Violation("path-start-wrong", "%s: path %r does not start at the source" % (name, path))
@@ -153,7 +151,7 @@ RULE = ("paths: Hypothesis multigraphs of 1..12 nodes and 0..40 edges as for C06
         "or that has parallel candidate edges of different weight. Distinct = hash of the case.")
 
 SUBCHECKS = [
-    SubCheck("paths", body_graph, strategy=strat_paths, quick=4000, thorough=200000, qshards=12,
+    SubCheck("paths", body_graph, strategy=strat_paths, quick=4000, thorough=120000, qshards=12,
              rule="random multigraphs with geometries, all ordered pairs s != t"),
     SubCheck("small", body_graph, enum=enum_small,
              rule="all graphs on 3 nodes with <= 2 (quick) / <= 3 (thorough) edges, weights {0,1,2}", qshards=4),
